@@ -46,3 +46,102 @@ def witnesses():
     except Exception as ex:      # noqa
         out.append({"known": "wrap-leading-whitespace", "text": "  a", "error": repr(ex)})
     return out
+
+
+COMMENTS = {
+    # (path in the FileDescriptorProto) -> (placement, text)
+    "service": ((6, 0), "leading", ' Manages shelves and the books on them; a shelf is addressed by a name of the form "shelves/1" and a book by\n "shelves/1/books/2"\n'),
+    "method": ((6, 0, 2, 0), "leading", " Fetches one shelf. Fails with NOT_FOUND when the shelf does not exist, and never returns a partial result.\n"),
+    "method_detached": ((6, 0, 2, 1), "detached", " Lists shelves in creation order.\n"),
+    "message": ((4, 0), "detached", " A shelf holds books of one genre.\n"),
+    "field": ((4, 0, 2, 0), "trailing", ' The resource name of the shelf, e.g. "shelves/1"\n'),
+    "field_detached": ((4, 0, 2, 1), "detached", " Free-form theme of the shelf.\n"),
+    "enum": ((5, 0), "leading", " Genres a shelf can be dedicated to.\n"),
+    "enum_value": ((5, 0, 2, 1), "detached", " Crime and mystery novels.\n"),
+    "message_quote": ((4, 1), "leading", ' The answer to a request; its only field echoes the string "ok"\n'),
+}
+
+
+def _words(text):
+    return text.split()
+
+
+def _contains_in_order(doc, words):
+    """The words of the comment occur in the docstring in order, consecutively (the quote guard may add a full stop to the last one)."""
+    toks = doc.split()
+    n = len(words)
+    for i in range(len(toks) - n + 1):
+        window = toks[i:i + n]
+        if window[:-1] == words[:-1] and window[-1] in (words[-1], words[-1] + "."):
+            return True
+    return False
+
+
+def scenarios():
+    """Comments in every placement (leading / trailing / detached only) on every kind of element reach the docstring of the generated element with
+    all their words in order, and every emitted module still compiles (comments ending in a double quote, one- and multi-line)."""
+    import ast
+    from vf import genlab as G
+    G.stub_pandoc_if_absent()
+    T = G.T
+    fd = G.new_file("acme/lab/v1/lab.proto", "acme.lab.v1")
+    G.add_message(fd, "Shelf", [G.F("name", 1, T.TYPE_STRING), G.F("theme", 2, T.TYPE_STRING), G.F("genre", 3, T.TYPE_ENUM, type_name=".acme.lab.v1.Genre")])
+    G.add_message(fd, "Answer", [G.F("text", 1, T.TYPE_STRING)])
+    G.add_message(fd, "Req", [G.F("name", 1, T.TYPE_STRING)])
+    en = fd.enum_type.add(name="Genre")
+    for i, nm in enumerate(("GENRE_UNSPECIFIED", "CRIME", "POETRY")):
+        en.value.add(name=nm, number=i)
+    svc = G.add_service(fd, "Lab")
+    G.add_method(svc, "GetShelf", ".acme.lab.v1.Req", ".acme.lab.v1.Shelf", http=("get", "/v1/{name=shelves/*}"))
+    G.add_method(svc, "ListShelves", ".acme.lab.v1.Req", ".acme.lab.v1.Answer", http=("get", "/v1/{name=lists/*}"))
+    for key, (path, where, text) in COMMENTS.items():
+        loc = fd.source_code_info.location.add(path=list(path))
+        if where == "leading":
+            loc.leading_comments = text
+        elif where == "trailing":
+            loc.trailing_comments = text
+        else:
+            loc.leading_detached_comments.append(text)
+    failures, cases = [], 0
+    try:
+        api, res = G.generate([fd], "autogen-snippets=false")
+    except Exception as e:      # noqa
+        return {"cases": 1, "failures": [{"what": "generation failed", "error": repr(e)[:300]}]}
+    by = {f.name: f.content for f in res.file}
+    trees = {}
+    for name, content in by.items():
+        if name.endswith(".py"):
+            cases += 1
+            try:
+                trees[name] = ast.parse(content)
+            except SyntaxError as e:
+                failures.append({"what": "an emitted module does not compile (a comment closed its docstring literal early?)", "file": name, "error": str(e)[:160]})
+
+    def cls_doc(fname, cname, meth=None):
+        t = trees.get(fname)
+        if t is None:
+            return None
+        c = next((n for n in ast.walk(t) if isinstance(n, ast.ClassDef) and n.name == cname), None)
+        if c is None:
+            return None
+        if meth is None:
+            return ast.get_docstring(c, clean=False) or ""
+        f = next((n for n in c.body if isinstance(n, (ast.FunctionDef, ast.AsyncFunctionDef)) and n.name == meth), None)
+        return None if f is None else (ast.get_docstring(f, clean=False) or "")
+    sites = [("service", "acme/lab_v1/services/lab/client.py", "LabClient", None), ("service", "acme/lab_v1/services/lab/async_client.py", "LabAsyncClient", None),
+             ("method", "acme/lab_v1/services/lab/client.py", "LabClient", "get_shelf"), ("method", "acme/lab_v1/services/lab/async_client.py", "LabAsyncClient", "get_shelf"),
+             ("method_detached", "acme/lab_v1/services/lab/client.py", "LabClient", "list_shelves"),
+             ("message", "acme/lab_v1/types/lab.py", "Shelf", None), ("field", "acme/lab_v1/types/lab.py", "Shelf", None), ("field_detached", "acme/lab_v1/types/lab.py", "Shelf", None),
+             ("enum", "acme/lab_v1/types/lab.py", "Genre", None), ("enum_value", "acme/lab_v1/types/lab.py", "Genre", None), ("message_quote", "acme/lab_v1/types/lab.py", "Answer", None)]
+    for key, fname, cname, meth in sites:
+        cases += 1
+        doc = cls_doc(fname, cname, meth)
+        where = COMMENTS[key][1]
+        if doc is None:
+            if fname in trees:
+                failures.append({"what": "generated element not found", "element": f"{cname}.{meth}" if meth else cname, "file": fname})
+            continue
+        if not _contains_in_order(doc, _words(COMMENTS[key][2])):
+            failures.append({"what": f"the words of a {where} comment do not all reach the docstring, in order", "element": f"{cname}.{meth}" if meth else cname, "file": fname,
+                             "comment": COMMENTS[key][2].strip()[:120], "docstring_head": " ".join(doc.split())[:160]})
+    return {"cases": cases, "failures": failures}
